@@ -146,18 +146,20 @@ Record cfg := mkcfg {
   c_updates : nat;      (* LBFGS: number of iterations_per_update blocks (maxiter / iterations_per_update) *)
   c_remove : bool;      (* general.yaml output.remove_files *)
   c_csv : bool;         (* general.yaml output.samples_to_csv *)
-  c_keep : bool         (* output.yaml search_internal *)
+  c_keep : bool;        (* output.yaml search_internal *)
+  c_chk : bool          (* general.yaml test.check_likelihood_function (true in the library's default configuration) *)
 }.
 Record code := mkcode {
   fx_zip : bool;        (* zip_directory writes <zip>.tmp then os.replace *)
   fx_resume : bool;     (* BFGS resume reads .x/.nit and starts afresh on an unreadable state *)
   fx_timer : bool;      (* Timer.start rewrites an unreadable .start_time; Timer.time ignores an unreadable .time *)
-  fx_dill : bool        (* save_search_internal writes search_internal.dill.tmp then os.replace *)
+  fx_dill : bool;       (* save_search_internal writes search_internal.dill.tmp then os.replace *)
+  fx_chk : bool         (* Fitness.check_log_likelihood ignores an unreadable summary and compares likelihood with likelihood *)
 }.
-Definition current : code := mkcode false false false false.
-Definition repaired : code := mkcode true true true true.
+Definition current : code := mkcode false false false false false.
+Definition repaired : code := mkcode true true true true true.
 
-Inductive exc := BadZip | KeyErr | EOFErr | Unpickling | ValueErr | JSONDecode | FileNotFound | OtherExc.
+Inductive exc := BadZip | KeyErr | EOFErr | Unpickling | ValueErr | JSONDecode | FileNotFound | SearchExc | OtherExc.
 Record result := mkres { r_tag : nat; r_samples : option nat; r_internal : bool }.
 
 (* ---------- the phases of NonLinearSearch.fit ---------- *)
@@ -208,8 +210,25 @@ Definition timer_ops (cd : code) (s : fs) : list op * option exc :=
 Definition dill_write (cd : code) (f : fstate) : list op :=
   if fx_dill cd then [OW DillTmp f; ODMV f] else [OW Dill f].
 
-(* the search's _fit: (ops, exception | generation of the final internal state, sampled?, returns an internal state?) *)
-Definition fit_ops (cd : code) (c : cfg) (tag : nat) (s : fs)
+(* Fitness.__init__ -> check_log_likelihood (only with test.check_likelihood_function): the samples summary of an
+   earlier, interrupted run is read back and its best likelihood recomputed.  A truncated file raises
+   JSONDecodeError; for BFGS/LBFGS the recomputed figure of merit is a chi-squared and never equals the stored
+   log likelihood (SearchException).  Result: exception, and whether the likelihood was evaluated. *)
+Definition chk_ops (cd : code) (c : cfg) (s : fs) : option exc * bool :=
+  if c_chk c then
+    match fd s Summary with
+    | Part _ => (if fx_chk cd then None else Some JSONDecode, false)
+    | Full (Gen _) =>
+        match c_search c with
+        | LBFGS => (if fx_chk cd then None else Some SearchExc, true)
+        | Drawer => (None, true)
+        end
+    | _ => (None, false)
+    end
+  else (None, false).
+
+(* the search's _fit: (ops, exception | generation of the final internal state, likelihood evaluated?, returns an internal state?) *)
+Definition search_ops (cd : code) (c : cfg) (tag : nat) (s : fs)
   : list op * (exc + nat) * bool * bool :=
   let loop := dill_write cd (Full (Gen tag)) ++ update_ops c tag in
   match c_search c with
@@ -230,6 +249,14 @@ Definition fit_ops (cd : code) (c : cfg) (tag : nat) (s : fs)
       | Part PEmpty => ([], inl EOFErr, false, true)
       | Part PHalf => ([], inl Unpickling, false, true)
       end
+  end.
+
+Definition fit_ops (cd : code) (c : cfg) (tag : nat) (s : fs)
+  : list op * (exc + nat) * bool * bool :=
+  match chk_ops cd c s with
+  | (Some e, ev) => ([], inl e, ev, true)
+  | (None, ev) =>
+      let '(f, fo, sm, internal) := search_ops cd c tag s in (f, fo, ev || sm, internal)
   end.
 
 (* Drawer._fit stores Timer.time (the content of .time as left by earlier runs) in its samples info;
@@ -453,7 +480,7 @@ Fixpoint list_eqb {A} (eqb : A -> A -> bool) (a b : list A) : bool :=
 Definition exc_eqb (a b : exc) : bool :=
   match a, b with
   | BadZip, BadZip | KeyErr, KeyErr | EOFErr, EOFErr | Unpickling, Unpickling | ValueErr, ValueErr
-  | JSONDecode, JSONDecode | FileNotFound, FileNotFound | OtherExc, OtherExc => true
+  | JSONDecode, JSONDecode | FileNotFound, FileNotFound | SearchExc, SearchExc | OtherExc, OtherExc => true
   | _, _ => false
   end.
 Definition optnat_eqb (a b : option nat) : bool :=
@@ -487,12 +514,13 @@ Record runobs := mkobs {
   o_tmp : bool
 }.
 
-Inductive case := CHistory (cd : code) (c : cfg) (runs : list runobs).
+(* tagged = the harness's likelihood encodes the run number (impossible with c_chk, where every run uses tag 0) *)
+Inductive case := CHistory (cd : code) (c : cfg) (tagged : bool) (runs : list runobs).
 
 Definition optbool_agrees (o : option bool) (b : bool) : bool :=
   match o with None => true | Some x => Bool.eqb x b end.
 
-Fixpoint check_runs cd c (tag : nat) (runs : list runobs) (s : fs) : bool :=
+Fixpoint check_runs cd c (tagged : bool) (tag : nat) (runs : list runobs) (s : fs) : bool :=
   match runs with
   | [] => true
   | o :: rest =>
@@ -501,8 +529,8 @@ Fixpoint check_runs cd c (tag : nat) (runs : list runobs) (s : fs) : bool :=
       && outcome_eqb out (o_outcome o)
       && (match out with RCrashed => true | _ => optbool_agrees (o_sampled o) (plan_sampled cd c tag (o_trace o) s) end)
       && fs_eqb s' (mkfs (dir_of (o_files o)) (zstate_of (o_zip o)) (o_tmp o))
-      && check_runs cd c (S tag) rest s'
+      && check_runs cd c tagged (if tagged then S tag else tag) rest s'
   end.
 
 Definition check_case (x : case) : bool :=
-  match x with CHistory cd c runs => check_runs cd c 0 runs empty_fs end.
+  match x with CHistory cd c tagged runs => check_runs cd c tagged 0 runs empty_fs end.
